@@ -22,8 +22,11 @@ import c02 as C02
 
 import threading
 _LOCK = threading.Lock()
+WATCHDOG_S = 8.0        # seconds without an answer line before a driver is killed
 
 WIDE_FEATURES = ["enum", "real", "bits", "strings", "oid", "time", "default", "ext"]     # no SET, no recursion
+if os.environ.get("VERIF_C13_EXTRA_FEATURES"):      # experiments only (e.g. "set,recursion"); not part of the claimed check
+    WIDE_FEATURES = WIDE_FEATURES + os.environ["VERIF_C13_EXTRA_FEATURES"].split(",")
 
 WITNESS_TEXT = """WIT DEFINITIONS ::= BEGIN
   U ::= INTEGER (0..MAX)
@@ -61,12 +64,28 @@ def needs_per_char_map(text):
     return re.search(r"NumericString|FROM\s*\(", text) is not None
 
 
-def split_along_no_constraints(variants, groups):
-    """the builds disagree exactly along -fno-constraints (groups: {output: [build indices]})"""
+def split_along(variants, groups, opt):
+    """the builds disagree exactly along one option (groups: {output: [build indices]})"""
     if len(groups) != 2:
         return False
-    sides = [set("-fno-constraints" in variants[vi].opts for vi in g) for g in groups.values()]
+    sides = [set(opt in variants[vi].opts for vi in g) for g in groups.values()]
     return all(len(x) == 1 for x in sides) and sides[0] != sides[1]
+
+
+def split_along_no_constraints(variants, groups):
+    return split_along(variants, groups, "-fno-constraints")
+
+
+def explicit_tagged_unsigned_member(text):
+    """C02-explicit-tag-unsigned-member as it shows here: a module with EXPLICIT default tagging has a tagged
+    component INTEGER whose range makes asn1c emit member-specific `unsigned` specifics (lower bound >= 0, upper bound
+    MAX or >= 2^31): the native build carries the tag twice, a -fwide-types build needs no such specifics and does not"""
+    if not re.search(r"DEFINITIONS\s+EXPLICIT\s+TAGS", text):
+        return False
+    for mt in re.finditer(r"\[\d+\]\s+INTEGER\s*\(\s*(\d+)\s*\.\.\s*(MAX|\d+)\s*\)", text):
+        if mt.group(2) == "MAX" or int(mt.group(2)) >= 2**31:
+            return True
+    return False
 
 
 def der_int(v, tag="02"):
@@ -107,23 +126,54 @@ class Variant:
         return "opt%d[%s]" % (self.k, " ".join(self.opts) or "(none)")
 
 
-def run_mod_resume(run, m, lines, name):
+def run_mod_resume(run, m, lines, name, exits=None):
     """like modcorpus.run_mod, but a command that kills the driver yields the output `CRASH:<rc>` and the
-    remaining commands are still run (whether a crash is an option matter is decided by the comparison)"""
+    remaining commands are still run (whether a crash is an option matter is decided by the comparison).
+    A non-zero exit after every command was answered (LeakSanitizer report at exit) is noted in exits[name]."""
     out = []
     rest = list(lines)
     while rest:
-        rc, o, err = run_lines(m["exe"], rest, timeout=900, env=SAN_ENV)
-        if rc == 0 and len(o) == len(rest):
-            out += o
+        rc, o, err = run_lines_watchdog(m["exe"], rest, per_line=WATCHDOG_S, env=SAN_ENV)
+        if rc == "TIMEOUT" and len(o) < len(rest):
+            out += o + ["TIMEOUT"]
+            with _LOCK:
+                run.count("driver_command_never_returned")
+                run.notes.append({"timeout": name, "command_line": rest[len(o)][:300]})
+            rest = rest[len(o) + 1:]
+            continue
+        if len(o) >= len(rest):
+            out += o[:len(rest)]
+            if rc != 0:
+                with _LOCK:
+                    run.count("driver_nonzero_exit_after_all_answers")
+                    run.notes.append({"exit": name, "rc": rc, "stderr_tail": err[-600:]})
+                    if exits is not None:
+                        exits[name] = (rc, err[-1200:])
             break
-        o = o[:len(rest) - 1] if len(o) >= len(rest) else o
         out += o + ["CRASH:%s" % rc]
         with _LOCK:
             run.count("driver_crash")
             run.notes.append({"crash": name, "command_line": rest[len(o)][:300], "stderr_tail": err[-600:]})
         rest = rest[len(o) + 1:]
     return out
+
+
+def exit_status_oracle(run, variants, mname, exits, stage):
+    """a sanitizer report at exit (leak) in some builds of a module and not in others is an option matter"""
+    bad = [vi for vi, var in enumerate(variants) if ("%s-%s" % (stage, var.label())) in exits]
+    asked = [vi for vi, var in enumerate(variants) if var.mods[mname].get("exe")]
+    full = [vi for vi in asked if not any(skips(variants[vi].opts, x) for x in SYNS)]      # builds asked for every syntax
+    bad_full = [vi for vi in bad if vi in full]
+    # a build made without a codec runs a subset of the commands: its clean exit says nothing about the others
+    differs = (bad_full and len(bad_full) < len(full)) or (bad and not bad_full and full)
+    if differs:
+        vi = bad[0]
+        rc, err = exits["%s-%s" % (stage, variants[vi].label())]
+        run.violation("oracle:options-change-exit-status", {"what": "the driver of some builds ends with a sanitizer report (leak) on commands the other builds run cleanly",
+                                                            "module": variants[0].mods[mname]["text"], "builds_with_report": [variants[i].label() for i in bad],
+                                                            "rc": rc, "stderr_tail": err})
+    elif bad:
+        run.count("exit_report_in_every_build(%s)" % stage.split("-")[-1])
 
 
 def _par(fn, n, jobs=8):
@@ -135,6 +185,7 @@ def _par(fn, n, jobs=8):
 def encode_everywhere(run, variants, mname, values, name):
     """values: list of (type, der).  Returns {syn: [ {build index: output line} per value ]}"""
     res = {s: [dict() for _ in values] for s in SYNS}
+    exits = {}
 
     def one(vi):
         var = variants[vi]
@@ -143,7 +194,7 @@ def encode_everywhere(run, variants, mname, values, name):
             return None
         syns = [s for s in SYNS if not skips(var.opts, s)]
         lines = ["xcode %s der %s %s" % (tn, der, s) for (tn, der) in values for s in syns]
-        return syns, run_mod_resume(run, m, lines, "%s-enc-%s" % (name, var.label()))
+        return syns, run_mod_resume(run, m, lines, "%s-enc-%s" % (name, var.label()), exits)
     for vi, r in enumerate(_par(one, len(variants))):
         if r is None:
             continue
@@ -153,12 +204,14 @@ def encode_everywhere(run, variants, mname, values, name):
             for s in syns:
                 res[s][j][vi] = out[i]
                 i += 1
+    exit_status_oracle(run, variants, mname, exits, name + "-enc")
     return res
 
 
 def decode_everywhere(run, variants, mname, items, name):
     """items: list of (type, syn, hex).  Returns [ {build index: output} per item ] of `xcode T syn hex der`"""
     res = [dict() for _ in items]
+    exits = {}
 
     def one(vi):
         var = variants[vi]
@@ -167,13 +220,14 @@ def decode_everywhere(run, variants, mname, items, name):
             return None
         idx = [i for i, (tn, s, h) in enumerate(items) if not skips(var.opts, s)]
         lines = ["xcode %s %s %s der" % (items[i][0], "ber" if items[i][1] == "der" else items[i][1], items[i][2]) for i in idx]
-        return idx, run_mod_resume(run, m, lines, "%s-dec-%s" % (name, var.label()))
+        return idx, run_mod_resume(run, m, lines, "%s-dec-%s" % (name, var.label()), exits)
     for vi, r in enumerate(_par(one, len(variants))):
         if r is None:
             continue
         idx, out = r
         for i, o in zip(idx, out):
             res[i][vi] = o
+    exit_status_oracle(run, variants, mname, exits, name + "-dec")
     return res
 
 
@@ -356,13 +410,13 @@ def main(tier):
     quick = tier == "quick"
     optsets = list(QUICK_SETS) if quick else all_subsets(rng)
     try:
-        nm, nt, nv = (6, 5, 6) if quick else (5, 5, 10)
+        nm, nt, nv = (6, 5, 6) if quick else (4, 5, 10)
         mods, cases = build_corpus(run, rng, nm, nt, nv, tier, opts=BASE, tag="opt0")
         wg = WGen(rng, features=WIDE_FEATURES)
-        wmods = [wg.module("W%d" % i, 5) for i in range(5 if quick else 5)] + [witness_module(), witness2_module()]
+        wmods = [wg.module("W%d" % i, 5) for i in range(5 if quick else 4)] + [witness_module(), witness2_module()]
         build_modules(wmods, tag="wopt0", opts=BASE)
-        mv = build_variants(mods, optsets, jobs=3)
-        wv = build_variants(wmods, optsets, jobs=3, prefix="wopt")
+        mv = build_variants(mods, optsets, jobs=4)
+        wv = build_variants(wmods, optsets, jobs=4, prefix="wopt")
     except BuildError as e:
         run.violation("build", {"what": str(e)[-2500:]}, no_input=True)
         return run.finish("proof", (nthm, ndis))
@@ -395,17 +449,24 @@ def main(tier):
         if not m.get("exe"):
             continue
         cs = bm.get(m["name"], [])
-        if quick and len(cs) > 60:
-            cs = [cs[i] for i in sorted(rng.shuffle(list(range(len(cs))))[:60])]
+        # every value is encoded 5 times and decoded ~5 times by EVERY build: cap the cases per module and keep only a
+        # few of the very long values (MS0's 16K/64K lists and strings are C02's subject)
+        big = [i for i, c in enumerate(cs) if len(c["der"]) > 6000]
+        keep_big = set(rng.shuffle(big)[:2 if quick else 3])
+        idx = [i for i in range(len(cs)) if i not in big or i in keep_big]
+        cap = 60 if quick else 90
+        if len(idx) > cap:
+            idx = sorted(rng.shuffle(idx)[:cap])
+        cs = [cs[i] for i in idx]
         values = [(c["tn"], c["der"]) for c in cs]
         mb = {"der": [c["der"] for c in cs], "uper": [c["uper"] for c in cs], "oer": [c["oer"] for c in cs], "uperstd": [c["uperstd"] for c in cs]}
 
         def classify(j, s, kind, detail, m=m, cs=cs):
             c = cs[j]
             if s == "uper" and (C02.ref_to_choice(m, c["tn"]) or C02.uses_choice_ref(m, dict(m["defs"])[c["tn"]])):
-                return "C13-choice-ref-no-per" if kind == "model-differs" else None
+                return "C02-choice-ref-no-per" if kind == "model-differs" else None
             return None
-        check_module(run, rng, tier, variants, m["name"], values, classify, "model", model_bytes=mb, dec_limit=150 if quick else None)
+        check_module(run, rng, tier, variants, m["name"], values, classify, "model", model_bytes=mb, dec_limit=150 if quick else 200)
         if cs:
             run.sample({"module": m["name"], "type": cs[0]["ts"], "value": cs[0]["vs"][:80], "der": cs[0]["der"][:80], "builds": [v.label() for v in variants if v.mods[m["name"]].get("exe")][:8]})
     # ------------------------------------------------------------ wide layer
@@ -435,8 +496,10 @@ def main(tier):
             g = detail if kind == "enc-differs" else detail.get("groups", {})
             if s == "uper" and needs_per_char_map(m["text"]) and split_along_no_constraints(wvariants, g):
                 return "C13-no-constraints-per-alphabet"
+            if explicit_tagged_unsigned_member(m["text"]) and split_along(wvariants, g, "-fwide-types"):
+                return "C13-explicit-tag-unsigned-member"
             return None
-        check_module(run, rng, tier, wvariants, m["name"], values, wclassify, "wide", dec_limit=150 if quick else None)
+        check_module(run, rng, tier, wvariants, m["name"], values, wclassify, "wide", dec_limit=150 if quick else 200)
         if values:
             run.sample({"wide_module": m["text"][:300], "type": values[0][0], "der": values[0][1][:80]})
     # ------------------------------------------------------------ witness layers
